@@ -208,6 +208,13 @@ def run_and_judge(ctx, cases, P, tag, timeout=600, known_hang=False):
         judge_pkg(ctx, c, res, "", c["cols"], c["lids"], tag)
         if c["derive"]:
             judge_pkg(ctx, c, res, "D", c["dcols"], c["dlids"], tag)
+        if c["mode"] == 1:
+            # the package pair of a distributed matrix (init_tap_communicators) and its derived pair (update_tap_comm)
+            ctx.count("matrix_package_pairs")
+            judge_pkg(ctx, c, res, "M3", c["cols"], c["lids"], tag); judge_pkg(ctx, c, res, "M2", c["cols"], c["lids"], tag)
+            if c["derive"] == 2:
+                ctx.count("derived_matrix_package_pairs")
+                judge_pkg(ctx, c, res, "N3", c["dcols"], c["dlids"], tag); judge_pkg(ctx, c, res, "N2", c["dcols"], c["dlids"], tag)
         if c["mode"] in (1, 2):
             for pre, cols, lids in (("", c["cols"], c["lids"]),) + ((("D", c["dcols"], c["dlids"]),) if c["derive"] else ()):
                 ranks = split_ranks(res[pre + "PKG"])
